@@ -252,11 +252,19 @@ def r4(ctx):
                f"constructs WebSocket with enable_multithread={e.kwargs.get('enable_multithread') if e else None!r}",
                ctx.index.loc(ctx.index.func("_core:create_connection").node))
     # WebSocketApp.run_forever.setSock
-    calls = [c for c in ctx.index.calls_in("_app:WebSocketApp.run_forever.setSock") if text(c.func) == "WebSocket"]
-    ok = bool(calls) and all(any(k.arg == "enable_multithread" and text(k.value) == "True" for k in c.keywords) for c in calls)
-    ctx.ob("_app:WebSocketApp.run_forever.setSock:enable_multithread", ok,
-           f"{len(calls)} WebSocket(...) construction(s) pass enable_multithread=True" if ok else "WebSocketApp builds its socket without enable_multithread=True",
-           ctx.index.loc(calls[0]) if calls else "")
+    # (semantic: whatever way the keyword reaches the constructor -- literal keyword, **options dict, functools.partial)
+    from .c13 import setsock_paths
+    ctors = []
+    for rec in (False, True):
+        I3, outs3 = setsock_paths(ctx, rec, False)
+        ctors += [e for o in outs3 for e in o.effects if e.name == "WebSocket()"]
+    if not ctors:
+        raise AnalysisError("setSock never constructs a WebSocket")
+    badc = [e for e in ctors if e.kwargs.get("enable_multithread") != TRUE]
+    ctx.ob("_app:WebSocketApp.run_forever.setSock:enable_multithread", not badc,
+           f"{len(ctors)} WebSocket(...) construction(s) on setSock's paths pass enable_multithread=True" if not badc else
+           f"WebSocketApp builds its socket without enable_multithread=True (it passes {badc[0].kwargs.get('enable_multithread')!r})",
+           (badc[0].loc if badc else ctors[0].loc) or "")
     # who else stores the lock fields
     stores = []
     for qn, fi in ctx.index.functions.items():
